@@ -559,6 +559,7 @@ def run(ctx, rep):
     scope_record(F, rep)
     const_declaration_over_existing_name(F, rep)
     existence_is_asked_function_wide(F, rep)
+    modify_target_is_not_const(F, rep)
     scope_walk(F, rep)
     const_flag(F, rep)
     member_names_are_not_variables(F, rep)
@@ -1039,3 +1040,54 @@ def existence_is_asked_function_wide(F, rep, rule="C10.guard"):
                                                % (sorted({mir.short(mir.strip_generics(x.callee())) for x in narrow}) or "no lookup")),
                                st.get("sp"), fn=g.path, key="%s|lookup-extent|%s" % (rule, sub))
     rep.floor(rule + " previous-binding results of the declaration parsers", n, 2)
+
+
+def modify_target_is_not_const(F, rep, rule="C10.guard"):
+    """`modify x = v` is compiled to store_object, which writes the variable the running function *captured* - the declaration found beyond the
+    function boundary - not the nearest declaration of that name (a local of the same name, a loop counter, a declaration in the same block
+    may sit in between).  The const test of `modify` therefore has to read the identifier that very lookup returned
+    (get_dependency_flags_from_name_skip_n in Assignment::can_modify_if_applicable): every successful answer after the lookup is dominated by
+    Ident::is_const on it and derives from that call (or is guarded by it)."""
+    f = need(F, "compiler::ast::assignment::Assignment::can_modify_if_applicable")
+    key = rule + "|modify-target-const"
+    label = "`modify x = v`: the const test reads the captured declaration the statement writes, not the nearest one of that name"
+    looks = f.calls_to("compiler::parser::AssocFileData::get_dependency_flags_from_name_skip_n")
+    if not looks:
+        rep.ob(rule, label, "undecided", "the lookup in can_modify_if_applicable is no longer get_dependency_flags_from_name_skip_n", f.span, fn=f.path, key=key)
+        return
+    thr = rules.TRANSPARENT | {rules.TRY_BRANCH, "anyhow::Context::context", "anyhow::Context::with_context"}
+    tests = []
+    for c in f.calls_to(IS_CONST):
+        l = op_local(c.args[0]) if c.args else None
+        oc = rules.origin_calls(f, l, transparent=thr) if l is not None else []
+        if any(o in looks for o in oc) or any(o.bb in {x.bb for x in looks} for o in oc):
+            tests.append(c)
+    after = set()
+    for c in looks:
+        if c.target is not None:
+            after |= f.reachable(c.target)
+    oks = [b for b in rules.ok_return_blocks(f) if b in after]
+    if not tests:
+        rep.ob(rule, label, "violated", "no Ident::is_const on the identifier the capture lookup returned: with a local, a loop counter or a block declaration of the same "
+               "name in between, `modify limit = 7` rewrites a captured `const limit`", looks[0].span, fn=f.path, key=key)
+        return
+    bad = [b for b in oks if not rules.call_dominates(f, tests, b)]
+    # ... and the answer is that test's: the returned bool derives from it, or the Ok is guarded by it
+    derived_ok = True
+    if not bad:
+        src = [c.dst["l"] for c in tests if c.dst]
+        v, info = rules.guarded_by_bool(f, oks, src, want=False)
+        if v != "ok":
+            # `Ok(!ident.is_const())`: the payload itself is the (negated) test
+            der = f.derived(src)
+            pay_ok = True
+            for b in oks:
+                for bi, si, dst, rv, st in f.assigns():
+                    if bi == b and "agg" in rv and rv["agg"].get("v") == "Ok":
+                        pl = op_local(rv["ops"][0])
+                        if pl is None or pl not in der:
+                            pay_ok = False
+            derived_ok = pay_ok
+    st = "violated" if (bad or not derived_ok) else "ok"
+    rep.ob(rule, label, st, "" if st == "ok" else "a successful answer for a `modify` does not depend on Ident::is_const of the captured identifier (%d of %d Ok returns)"
+           % (len(bad) or len(oks), len(oks)), tests[0].span, fn=f.path, key=key)
